@@ -8,6 +8,13 @@
 macro_rules! profile_function {
     () => {};
 }
+/// R3: error text is not under contract
+#[macro_export]
+macro_rules! format {
+    ($($t:tt)*) => {
+        String::new()
+    };
+}
 pub mod shim;
 pub use shim::*;
 mod extracted;
